@@ -263,10 +263,14 @@ def finish(prop, tier, mod, base_seed, results, wall, harness_errors, planned, t
     with open(os.path.join(OUT, 'evidence', prop + '.json'), 'w') as f:
         json.dump(ev, f, indent=1, ensure_ascii=False, default=str)
     # report -----------------------------------------------------------------------------
-    for kid, rs in sorted(known_hits.items()):
-        k = next(x for x in known if x['id'] == kid)
-        print('KNOWN-FINDING: property=%s %s (hit in %d runs, e.g. seed %d)'
-              % (k['property'], k['what'], len(rs), rs[0]['seed']))
+    listed = [k for k in known if k['property'] == prop or k['id'] in known_hits]
+    for k in sorted(listed, key=lambda x: x['id']):
+        rs = known_hits.get(k['id'], [])
+        if rs:
+            note = '(tolerated in %d runs of this batch, e.g. seed %d)' % (len(rs), rs[0]['seed'])
+        else:
+            note = '(listed; not reached by this batch)'
+        print('KNOWN-FINDING: property=%s %s %s' % (k['property'], k['what'], note))
     rc = 0
     if unknown:
         r = unknown[0]
